@@ -57,10 +57,19 @@ type Consensus struct {
 // dsstate.Unmarshal only adds the snapshot's entries to the store.
 type snapshotState struct {
 	*dsstate.State
+	// restoring is set by restoreFSM while hashicorp/raft restores a
+	// snapshot. go-libp2p-raft also calls Unmarshal from FSM.Apply, to
+	// find out whether a log entry that it could not decode is a state
+	// rollback: that attempt must leave the pinset alone.
+	restoring bool
 }
 
-// Unmarshal empties the state and then loads the snapshot.
+// Unmarshal empties the state and then loads the snapshot when called as
+// part of FSM.Restore. Otherwise it only adds, like dsstate.Unmarshal.
 func (st *snapshotState) Unmarshal(r io.Reader) error {
+	if !st.restoring {
+		return st.State.Unmarshal(r)
+	}
 	ctx := context.Background()
 	pins, err := st.List(ctx)
 	if err != nil {
@@ -72,6 +81,21 @@ func (st *snapshotState) Unmarshal(r io.Reader) error {
 		}
 	}
 	return st.State.Unmarshal(r)
+}
+
+// restoreFSM is go-libp2p-raft's FSM telling the state when it is being
+// restored from a snapshot (Apply and Restore are never run concurrently
+// by hashicorp/raft).
+type restoreFSM struct {
+	*libp2praft.FSM
+	state *snapshotState
+}
+
+// Restore implements hraft.FSM.
+func (fsm *restoreFSM) Restore(reader io.ReadCloser) error {
+	fsm.state.restoring = true
+	defer func() { fsm.state.restoring = false }()
+	return fsm.FSM.Restore(reader)
 }
 
 // NewConsensus builds a new ClusterConsensus component using Raft.
@@ -105,8 +129,10 @@ func NewConsensus(
 	if err != nil {
 		return nil, err
 	}
-	consensus := libp2praft.NewOpLog(&snapshotState{state}, baseOp)
-	raft, err := newRaftWrapper(host, cfg, consensus.FSM(), staging)
+	snapState := &snapshotState{State: state}
+	consensus := libp2praft.NewOpLog(snapState, baseOp)
+	fsm := &restoreFSM{FSM: consensus.FSM(), state: snapState}
+	raft, err := newRaftWrapper(host, cfg, fsm, staging)
 	if err != nil {
 		logger.Error("error creating raft: ", err)
 		return nil, err
